@@ -299,7 +299,7 @@ def _derives_from_signal_data(du, e: ast.AST, _seen=None) -> bool:
     return False
 
 
-@rule("R-FD-WRITEBACK", floor=3)
+@rule("R-FD-WRITEBACK", floor=2)    # at least one perturbation and its restoration
 def r_fd_writeback(ctx: RuleCtx, col: Collector):
     """finite_difference edits a local snapshot of the input state in place; signals whose state getter returns a copy
     (slices with index arrays, properties) only see the edit if the snapshot is assigned back.  Between every in-place
@@ -364,6 +364,29 @@ def r_sibling_exc(ctx: RuleCtx, col: Collector):
     import re
     for f in _functions(ctx.model):
         tries = [n for n in ast.walk(f.node) if isinstance(n, ast.Try)]
+        # one implementation shared by both passes, parameterised by the part function (part = np.real / np.imag): the
+        # fallback in the handler must apply the same function as the guarded statement
+        partfns = {a.arg for a in f.node.args.args + f.node.args.kwonlyargs}
+        for n in ast.walk(f.node):
+            if isinstance(n, ast.Assign) and re.search(r"\b(real|imag)\b", U(n.value)):
+                for t_ in n.targets:
+                    partfns |= {x.id for x in ast.walk(t_) if isinstance(x, ast.Name)}
+        for t in tries:
+            def applied(stmts):
+                return {x.func.id for s_ in stmts for x in ast.walk(s_) if isinstance(x, ast.Call) and isinstance(x.func, ast.Name)
+                        and x.func.id in partfns and x.args}
+            pb = applied(t.body)
+            if not pb or not any(isinstance(x, ast.Subscript) for s_ in t.body for x in ast.walk(s_)):
+                continue
+            for h in t.handlers:
+                ph = applied(h.body)
+                parts_h = set(re.findall(r"\b(real|imag)\b", "\n".join(U(s_) for s_ in h.body)))
+                if ph == pb and not parts_h:
+                    col.ok(where_of(f), f.rel, line_of(h), stmt_key(h.body[0]), f"fallback applies the same part function {sorted(pb)}")
+                elif ph or parts_h:
+                    col.bad(where_of(f), f.rel, line_of(h), stmt_key(h.body[0]),
+                            f"the guarded statement applies the part function {sorted(pb)} but the fallback in the handler applies "
+                            f"{sorted(ph | parts_h)}: for values that need the fallback (scalars) the wrong component is reported")
         if len(tries) < 2:
             continue
         groups: Dict[str, List[ast.Try]] = {}
